@@ -53,7 +53,8 @@ class GatePolicy(taint.Policy):
                 from .absint import SuccCtx
                 self._succctx = SuccCtx(self.f)
             d = descr.Describer(self.f, eng.body(fn), rets=lambda fid: self.ret_desc(eng, fid), ctx=self._succctx,
-                                ret_slices=lambda fid, path: self.ret_slice(eng, fid, path))
+                                ret_slices=lambda fid, path: self.ret_slice(eng, fid, path),
+                                ret_values=lambda fid, path: self.ret_value(eng, fid, path))
             self.descs[fn["id"]] = d
         return d
 
@@ -70,6 +71,24 @@ class GatePolicy(taint.Policy):
                 self.retmemo[key] = self.describer(eng, fn).returned_slice(path)
             finally:
                 self.retbusy.discard(fid)
+        return self.retmemo[key]
+
+    def ret_value(self, eng, fid, path):
+        """value descriptor (callee terms) found at `path` of what local function fid returns (`Some((q, ty))`)"""
+        key = ("V", fid, path)
+        if key in self.retmemo:
+            return self.retmemo[key]
+        self.retmemo[key] = None
+        fn = self.f.fns.get(fid)
+        if fn is not None and ("V", fid) not in self.retbusy:
+            self.retbusy.add(("V", fid))
+            try:
+                d = self.describer(eng, fn).returned_value(path)
+                if d is not None and not descr.mentions_input(d):
+                    d = None
+                self.retmemo[key] = d
+            finally:
+                self.retbusy.discard(("V", fid))
         return self.retmemo[key]
 
     def ret_desc(self, eng, fid):
